@@ -1,13 +1,16 @@
 /-
 Props/C07.lean — all interfaces to the same computation return the same numbers (functional
 interface part: rank table and tiling; the table is regenerated from /repo on every run).
-/- FULL: also source/sensor/collection method wrappers and core functions: those are delegation
-   glue, covered by the cross-interface oracle on the real code. Proved here in addition: the
-   error exits of getBH_level2 and the row order of output='dataframe'. -/
+/- FULL: also the core functions (magpylib.core.*): covered by the cross-interface oracle on the real code.
+   Proved here in addition: the error exits of getBH_level2, the row order of output='dataframe', and — on the
+   model of the input formatting and of the method wrappers (Model/Iface.lean, tied by the `iface` stream) — that
+   src.getX / sens.getX / coll.getX are the top-level call with the corresponding arguments, that position arrays
+   are sensors at the origin, and what format_src_inputs / check_duplicates do. -/
 -/
 import MagpyVerif.Model.DictIface
 import MagpyVerif.Gen.Ndim
 import MagpyVerif.Lemmas.Level2Shape
+import MagpyVerif.Lemmas.Iface
 namespace MagpyVerif.C07
 open MagpyVerif.DictIface MagpyVerif.Gen
 
@@ -215,5 +218,345 @@ example :
     (error_cases _ _ _ _ _ _ _ _ _).1.mpr ⟨rfl, Or.inr (Or.inl rfl)⟩,
     (error_cases _ _ _ _ _ _ _ _ _).1.mpr ⟨rfl, Or.inr (Or.inr (Or.inl ⟨.coll [.coll []], by simp, by simp [Entry.leaves]⟩))⟩,
     (error_cases _ _ _ _ _ _ _ _ _).1.mpr ⟨rfl, exBadMixed⟩⟩
+
+/-! ### the input formatting in front of getBH_level2 and the method wrappers (Model/Iface.lean) -/
+section iface
+open MagpyVerif MagpyVerif.Level2 MagpyVerif.Iface
+variable {G V : Type}
+
+section
+variable [Mul G] [Inv G] [One G] [SMul G V] [Add V] [Sub V] [Zero V] [BEq G]
+
+/-- **method wrappers agree with the top-level function.** `src.getX(*obs, squeeze, pixel_agg, output)` is
+`getX([src], obs…, sumup=False, …)`; `sens.getX(*srcs, sumup, …)` is `getX(srcs…, [sens], …)`; and
+`coll.getX(*inputs, …)` is, by the three branches of `_validate_getBH_inputs`: with sources and sensors
+`getX(coll, coll)` (any positional input is rejected with MagpylibBadUserInput); without sources
+`getX(inputs, coll)` with the inputs as a tuple (NOT unpacked); without sensors `getX(coll, inputs…)`. Star
+arguments are unpacked by `format_star_input` (a single argument stands for itself); `squeeze`, `pixel_agg`,
+`output` (and `sumup` where the method has it) are passed through unchanged, `sumup=False` otherwise. Which
+branch is taken depends only on whether `sources_all` / `sensors_all` (any depth) are empty. -/
+theorem method_wrappers_agree (flipX : V → V) (vmin vmax : V → V → V) :
+    (∀ (i : Nat) (s : Src G V) (obs : List (Inp G V)) (squeeze : Bool) (agg : AggIn) (outOk : Bool),
+      srcMethod flipX vmin vmax i s obs squeeze agg outOk =
+        getBtop flipX vmin vmax (.list [.obj (.src i s)]) (starInput obs)
+          { sumup := false, squeeze := squeeze, agg := agg, outOk := outOk }) ∧
+    (∀ (i : Nat) (k : Sens G V) (srcs : List (Inp G V)) (f : Flags),
+      sensMethod flipX vmin vmax i k srcs f =
+        getBtop flipX vmin vmax (starInput srcs) (.list [.obj (.sens i k)]) f) ∧
+    (∀ (i : Nat) (cs : List (Obj G V)) (inputs : List (Inp G V)) (squeeze : Bool) (agg : AggIn) (outOk : Bool),
+      let c : Inp G V := .obj (.coll i cs)
+      let f : Flags := { sumup := false, squeeze := squeeze, agg := agg, outOk := outOk }
+      collMethod flipX vmin vmax i cs inputs squeeze agg outOk =
+        match collBranch i cs with
+        | .both => if inputs = [] then getBtop flipX vmin vmax c c f else .error .badUserInput
+        | .noSources => getBtop flipX vmin vmax (.list inputs) c f
+        | .noSensors => getBtop flipX vmin vmax c (starInput inputs) f) ∧
+    (∀ (i : Nat) (cs : List (Obj G V)),
+      (collBranch i cs = .both ↔ (Obj.coll i cs).sourcesAll ≠ [] ∧ (Obj.coll i cs).sensorsAll ≠ []) ∧
+      (collBranch i cs = .noSources ↔ (Obj.coll i cs).sourcesAll = []) ∧
+      (collBranch i cs = .noSensors ↔ (Obj.coll i cs).sourcesAll ≠ [] ∧ (Obj.coll i cs).sensorsAll = [])) := by
+  refine ⟨fun _ _ _ _ _ _ => rfl, fun _ _ _ _ => rfl, ?_, ?_⟩
+  · intro i cs inputs squeeze agg outOk
+    simp only [collMethod, validateInputs]
+    cases collBranch i cs with
+    | both => cases inputs <;> simp
+    | noSources => rfl
+    | noSensors =>
+      match inputs with
+      | [] => rfl
+      | [x] => rfl
+      | x :: y :: zs => rfl
+  · intro i cs
+    unfold collBranch
+    by_cases hS : (Obj.coll i cs).sourcesAll = [] <;> by_cases hK : (Obj.coll i cs).sensorsAll = [] <;>
+      simp [hS, hK]
+
+/-- **the method forms of one configuration coincide**: `src.getX(sens) = sens.getX(src)`; for a Collection without
+sensors `coll.getX(sens) = sens.getX(coll)`; for a Collection without sources `coll.getX(src) = src.getX(coll)` — each
+with the same `squeeze` / `pixel_agg` / `output` (and `sumup=False`, which the source and collection methods fix). -/
+theorem method_forms_coincide (flipX : V → V) (vmin vmax : V → V → V) (i j : Nat) (s : Src G V) (k : Sens G V)
+    (cs : List (Obj G V)) (squeeze : Bool) (agg : AggIn) (outOk : Bool) :
+    let f : Flags := { sumup := false, squeeze := squeeze, agg := agg, outOk := outOk }
+    srcMethod flipX vmin vmax i s [.obj (.sens j k)] squeeze agg outOk =
+      sensMethod flipX vmin vmax j k [.obj (.src i s)] f ∧
+    (collBranch i cs = .noSensors →
+      collMethod flipX vmin vmax i cs [.obj (.sens j k)] squeeze agg outOk =
+        sensMethod flipX vmin vmax j k [.obj (.coll i cs)] f) ∧
+    (collBranch i cs = .noSources →
+      collMethod flipX vmin vmax i cs [.obj (.src j s)] squeeze agg outOk =
+        srcMethod flipX vmin vmax j s [.obj (.coll i cs)] squeeze agg outOk) := by
+  refine ⟨rfl, ?_, ?_⟩
+  · intro hb
+    rw [(method_wrappers_agree flipX vmin vmax).2.2.1 i cs _ squeeze agg outOk, hb]
+    rfl
+  · intro hb
+    rw [(method_wrappers_agree flipX vmin vmax).2.2.1 i cs _ squeeze agg outOk, hb]
+    rfl
+
+/-- **observers_as_positions** (C04): a bare array of positions of shape `sh ++ [3]` as observers gives the same
+result — shape and numbers, under every flag combination, errors included — as a Sensor at the origin with unit
+orientation, right-handed, holding that array as its pixel (`pix_shapes` entry `(1, 3)` for a bare `(3,)`). -/
+theorem observers_as_positions (flipX : V → V) (vmin vmax : V → V → V) (srcs : Inp G V) (sh : List Nat)
+    (d : List V) (hd : d ≠ []) (i : Nat) (f : Flags) :
+    getBtop flipX vmin vmax srcs (.pos sh d) f =
+      getBtop flipX vmin vmax srcs (.obj (.sens i (freshSensor sh d))) f ∧
+    (freshSensor sh d : Sens G V) =
+      { pos := [0], ori := [1], pixels := d, pixShape := if sh = [] then [1] else sh, left := false } := by
+  constructor
+  · unfold getBtop
+    cases formatSrc srcs with
+    | error e => rfl
+    | ok sf =>
+      cases checkPixelAgg f.agg with
+      | error e => rfl
+      | ok agg => simp only [formatObs_pos sh d agg hd, formatObs_sensor, List.map_cons, List.map_nil]
+  · cases sh <;> rfl
+
+/-- shape bookkeeping for position observers: with `squeeze=False` and no `pixel_agg` the result has shape
+`(number of top-level sources (1 with sumup), longest path, 1) ++ sh` (`(…, 1, 1)` for a bare `(3,)`) -/
+theorem positions_output_shape (flipX : V → V) (vmin vmax : V → V → V) (srcs : Inp G V) (sh : List Nat)
+    (d : List V) (sumup : Bool) (out : Out V)
+    (h : getBtop flipX vmin vmax srcs (.pos sh d)
+      { sumup := sumup, squeeze := false, agg := .agg .none, outOk := true } = .ok out) :
+    ∃ sf, formatSrc srcs = .ok sf ∧
+      out.shape = [if sumup then 1 else sf.sources.length,
+        pathLen (sf.srcList.map (·.2)) [(freshSensor sh d : Sens G V)], 1] ++ (if sh = [] then [1] else sh) := by
+  unfold getBtop at h
+  cases hs : formatSrc srcs with
+  | error e => rw [hs] at h; cases h
+  | ok sf =>
+    rw [hs] at h
+    refine ⟨sf, rfl, ?_⟩
+    have hsf := (formatSrc_ok_iff srcs sf).mp hs
+    by_cases hd : d = []
+    · simp [checkPixelAgg, formatObs, sensorOfArray, hd] at h
+    · simp only [checkPixelAgg, formatObs_pos sh d .none hd, List.map_cons, List.map_nil] at h
+      cases hg : getBH flipX vmin vmax sf.entries [freshSensor sh d] sumup false Agg.none with
+      | error e => rw [hg] at h; cases e <;> simp [liftErr] at h
+      | ok o =>
+        rw [hg] at h
+        simp only [liftErr, if_true, Except.ok.injEq] at h
+        subst h
+        have hok := not_bad_of_getBH_ok hg
+        rw [getBH_ok flipX vmin vmax _ _ sumup false .none hok] at hg
+        injection hg with hg
+        rw [← hg]
+        have hlen : sf.entries.length = sf.sources.length := by
+          apply toEntries_length_of_good
+          intro o ho
+          apply hsf.2.1
+          rw [hsf.2.2.1]
+          exact List.mem_map_of_mem ho
+        have hleaves : sf.entries.flatMap Entry.leaves = sf.srcList.map (·.2) := by
+          rw [hsf.2.2.2]; exact toEntries_leaves sf.sources
+        simp only [shape0, Bool.false_eq_true, if_false, if_true, hlen, hleaves, List.map_cons, List.map_nil,
+          List.headD_cons, freshSensor, List.isEmpty_iff, List.length_cons, List.length_nil, Nat.zero_add]
+end
+
+section
+variable [Group G] [AddCommGroup V] [DistribMulAction G V] [BEq G] [LawfulBEq G]
+/-- … and that sensor's pixels sit at the given positions at every path index, it counts as unrotated (no
+back-rotation is applied) and it is right-handed: the numbers are the global field at the positions themselves -/
+theorem position_pixels_are_the_positions (sh : List Nat) (d : List V) (m : Nat) :
+    poso [(freshSensor sh d : Sens G V)] m = d ∧ unrotated (freshSensor sh d : Sens G V) = true ∧
+      (freshSensor sh d : Sens G V).left = false := by
+  refine ⟨?_, ?_, rfl⟩
+  · simp [poso, freshSensor, clampGet]
+  · simp [unrotated, freshSensor]
+end
+
+/-- **format_src_flatten_spec.** `format_src_inputs` (i) wraps a bare object into a one-element list; (ii) on success
+returns exactly the given top-level entries, in order and without dropping repeats (`sources`), together with
+`src_list` = the concatenation, in order, of each entry's `sources_all` — and the entries handed to the marshalling
+model have exactly these leaves; (iii) fails — always with MagpylibBadUserInput — exactly when the list is empty or
+some entry is not a source or a Collection holding a source at some depth (a Sensor, a nested list, a position
+array, anything else, a Collection without sources); (iv) `sources_all` of a Collection is the depth-first
+concatenation over its children, for every nesting depth. -/
+theorem format_src_flatten_spec (inp : Inp G V) :
+    (∀ sf, formatSrc inp = .ok sf →
+      sf.sources.map Inp.obj = items inp ∧ sf.srcList = sf.sources.flatMap Obj.sourcesAll ∧
+      sf.entries.length = sf.sources.length ∧ sf.entries.flatMap Entry.leaves = sf.srcList.map (·.2)) ∧
+    ((∃ sf, formatSrc inp = .ok sf) ↔ items inp ≠ [] ∧ ∀ x ∈ items inp, GoodSrc x) ∧
+    (∀ e, formatSrc inp = .error e → e = .badUserInput) ∧
+    (∀ (i : Nat) (cs : List (Obj G V)), (Obj.coll i cs).sourcesAll = cs.flatMap Obj.sourcesAll) ∧
+    (∀ (o : Obj G V) (e : Entry G V), o.toEntry? = some e → e.leaves = o.sourcesAll.map (·.2)) := by
+  refine ⟨?_, ?_, formatSrc_error inp, sourcesAll_coll, toEntry?_leaves⟩
+  · intro sf hs
+    have hsf := (formatSrc_ok_iff inp sf).mp hs
+    refine ⟨hsf.2.2.1.symm, hsf.2.2.2, ?_, ?_⟩
+    · apply toEntries_length_of_good
+      intro o ho
+      apply hsf.2.1
+      rw [hsf.2.2.1]
+      exact List.mem_map_of_mem ho
+    · rw [hsf.2.2.2]; exact toEntries_leaves sf.sources
+  · constructor
+    · rintro ⟨sf, hs⟩
+      have hsf := (formatSrc_ok_iff inp sf).mp hs
+      exact ⟨hsf.1, hsf.2.1⟩
+    · rintro ⟨hne, hg⟩
+      obtain ⟨os, hos⟩ : ∃ os : List (Obj G V), items inp = os.map Inp.obj := by
+        generalize items inp = xs at hg
+        induction xs with
+        | nil => exact ⟨[], rfl⟩
+        | cons x xs ih =>
+          obtain ⟨os, hos⟩ := ih (fun y hy => hg y (List.mem_cons_of_mem _ hy))
+          rcases hg x (by simp) with ⟨i, s, rfl⟩ | ⟨i, cs, rfl, _⟩
+          · exact ⟨.src i s :: os, by simp [hos]⟩
+          · exact ⟨.coll i cs :: os, by simp [hos]⟩
+      exact ⟨⟨os, os.flatMap Obj.sourcesAll⟩, (formatSrc_ok_iff inp _).mpr ⟨hne, hg, hos, rfl⟩⟩
+
+/-- **check_duplicates** keeps the first occurrence of every object, in order: the result has no repeats, the same
+members, is a sublist of the input, and the warning is printed exactly when something was dropped. (Nothing on the
+field-computation path calls it — see `duplicates_are_kept`.) -/
+theorem check_duplicates_spec {α : Type} [DecidableEq α] (xs : List α) :
+    (checkDuplicates xs).1.Nodup ∧ (∀ x, x ∈ (checkDuplicates xs).1 ↔ x ∈ xs) ∧
+      (checkDuplicates xs).1.Sublist xs ∧ ((checkDuplicates xs).2 = true ↔ ¬ xs.Nodup) := by
+  obtain ⟨h1, h2, t, h3, h4⟩ := foldl_dedupStep xs [] List.nodup_nil
+  rw [List.nil_append] at h3
+  have hfst : (checkDuplicates xs).1 = t := by rw [checkDuplicates_fst, h3]
+  refine ⟨by rw [checkDuplicates_fst]; exact h1, fun x => by rw [checkDuplicates_fst, h2]; simp,
+    by rw [hfst]; exact h4, ?_⟩
+  have hsnd : (checkDuplicates xs).2 = ((checkDuplicates xs).1.length != xs.length) := rfl
+  rw [hsnd, hfst]
+  constructor
+  · intro hne hnd
+    have := foldl_dedupStep_of_nodup xs [] hnd (by simp)
+    rw [h3, List.nil_append] at this
+    simp [this] at hne
+  · intro hnd
+    simp only [bne_iff_ne, ne_eq]
+    intro hlen
+    apply hnd
+    have := h4.eq_of_length hlen
+    rw [← this, ← h3]; exact h1
+
+/-- **duplicates_are_kept**: the same source listed twice stays listed twice — `format_src_inputs` returns both
+in `sources` and in `src_list` (so the result has two equal rows); only the `set(src_list + sensors)` used for the
+longest path and for tiling holds every object once, and the longest path over that set is the longest path over all
+leaves and sensors (what the marshalling model uses). -/
+theorem duplicates_are_kept (i : Nat) (s : Src G V) (sensors : List (OId × Sens G V)) :
+    formatSrc (.list [.obj (.src i s), .obj (.src i s)]) =
+      .ok { sources := [.src i s, .src i s], srcList := [(i, s), (i, s)] } ∧
+    (∀ srcList : List (Nat × Src G V),
+      (objList srcList sensors).Nodup ∧
+      (∀ p, p ∈ objList srcList sensors ↔
+        p ∈ (srcList.map fun q => (OId.user q.1, q.2.pos.length)) ++ (sensors.map fun q => (q.1, q.2.pos.length))) ∧
+      maxPathLen srcList sensors = pathLen (srcList.map (·.2)) (sensors.map (·.2))) := by
+  refine ⟨by simp [formatSrc_eq, items, checkSrcEntries, checkSrcEntry, Obj.sourcesAll], fun srcList => ?_⟩
+  obtain ⟨h1, h2, _, _⟩ := check_duplicates_spec
+    ((srcList.map fun q => (OId.user q.1, q.2.pos.length)) ++ (sensors.map fun q => (q.1, q.2.pos.length)))
+  refine ⟨h1, h2, ?_⟩
+  unfold maxPathLen pathLen
+  apply foldl_max_congr
+  intro n
+  simp only [List.mem_map, List.mem_append]
+  constructor
+  · rintro ⟨p, hp, rfl⟩
+    rcases List.mem_append.mp ((h2 p).mp hp) with h | h
+    · obtain ⟨q, hq, rfl⟩ := List.mem_map.mp h
+      exact Or.inl ⟨q.2, ⟨q, hq, rfl⟩, rfl⟩
+    · obtain ⟨q, hq, rfl⟩ := List.mem_map.mp h
+      exact Or.inr ⟨q.2, ⟨q, hq, rfl⟩, rfl⟩
+  · rintro (⟨a, ⟨q, hq, rfl⟩, rfl⟩ | ⟨a, ⟨q, hq, rfl⟩, rfl⟩)
+    · exact ⟨(OId.user q.1, q.2.pos.length), (h2 _).mpr (List.mem_append_left _ (List.mem_map_of_mem hq)), rfl⟩
+    · exact ⟨(q.1, q.2.pos.length), (h2 _).mpr (List.mem_append_right _ (List.mem_map_of_mem hq)), rfl⟩
+
+section
+variable [One G] [Zero V]
+/-- **a Collection as observers is the list of its sensors** (`sensors_all`, depth first); without any sensor it is
+rejected; a bare Sensor is the one-element list. -/
+theorem collection_observers_are_its_sensors (i : Nat) (cs : List (Obj G V)) (agg : Agg) :
+    ((Obj.coll i cs).sensorsAll ≠ [] →
+      formatObs (.obj (.coll i cs)) agg =
+        formatObs (.list ((Obj.coll i cs).sensorsAll.map fun p => Inp.obj (.sens p.1 p.2))) agg) ∧
+    ((Obj.coll i cs).sensorsAll = [] → formatObs (.obj (.coll i cs)) agg = .error .badUserInput) ∧
+    (∀ (j : Nat) (k : Sens G V), formatObs (.obj (.sens j k)) agg = .ok [(.user j, k)]) := by
+  refine ⟨formatObs_coll i cs agg, ?_, fun j k => formatObs_sensor j k agg⟩
+  intro h
+  simp [formatObs, asArray_list_obj_none, obsLoop, obsEntry, h]
+end
+end iface
+
+-- non-vacuity on the world `Iface.Example` (sources s0 (path 1), s1 (path 2); sensors k0, k1 with pixel shape (2,);
+-- collections cS (sources only, nested), cK (sensors only, nested), cB (both), cE (empty)):
+-- all three `_validate_getBH_inputs` branches occur; the calls below succeed
+open MagpyVerif.Iface MagpyVerif.Iface.Example MagpyVerif.Level2 MagpyVerif.Level2.Example in
+example : collBranch 14 [.src 0 s0, .sens 2 k0] = .both ∧ collBranch 12 [.sens 2 k0, .coll 13 [.sens 3 k1]] = .noSources ∧
+    collBranch 10 [.src 0 s0, .coll 11 [.src 1 s1]] = .noSensors ∧ collBranch (G := R) (V := W) 15 [.coll 16 []] = .noSources := by
+  refine ⟨?_, ?_, ?_, ?_⟩ <;> simp [collBranch, Obj.sourcesAll, Obj.sensorsAll]
+-- src.getB(k0, k1) and cK.getB(s0, s1, pixel_agg="sum") return arrays of shape (1, 2, 2, 2) resp. (2, 2, 2, 1); cB.getB() with
+-- squeeze returns shape (2,)
+open MagpyVerif.Iface MagpyVerif.Iface.Example MagpyVerif.Level2 MagpyVerif.Level2.Example in
+example : ∃ out, srcMethod exFlip exMin exMax 1 s1 [.obj (.sens 2 k0), .obj (.sens 3 k1)] false (.agg .none) true = .ok out ∧
+    out.shape = [1, 2, 2, 2] := by
+  refine ⟨_, getBtop_ok exFlip exMin exMax _ _ _ ⟨[.src 1 s1], [(1, s1)]⟩ .none [(.user 2, k0), (.user 3, k1)] ?_ rfl ?_ ?_, ?_⟩
+  · simp [formatSrc_eq, items, checkSrcEntries, checkSrcEntry, Obj.sourcesAll]
+  · simp [starInput, formatObs, Inp.asArray, Inp.asArrays, obsLoop, obsEntry, allSame, k0, k1]
+  · simp [BadInput, SrcFmt.entries, Obj.toEntries, Obj.toEntry?, Entry.leaves, k0, k1]
+  · simp [shape0, pathLen, SrcFmt.entries, Obj.toEntries, Obj.toEntry?, Entry.leaves, s1, k0, k1]
+open MagpyVerif.Iface MagpyVerif.Iface.Example MagpyVerif.Level2 MagpyVerif.Level2.Example in
+example : ∃ out, collMethod exFlip exMin exMax 12 [.sens 2 k0, .coll 13 [.sens 3 k1]] [.obj (.src 0 s0), .obj (.src 1 s1)]
+      false (.agg .sum) true = .ok out ∧ out.shape = [2, 2, 2, 1] := by
+  have hb : collBranch 12 [.sens 2 k0, .coll 13 [.sens 3 k1]] = .noSources := by
+    simp [collBranch, Obj.sourcesAll, Obj.sensorsAll]
+  rw [((method_wrappers_agree exFlip exMin exMax).2.2.1 12 _ _ false (.agg .sum) true), hb]
+  refine ⟨_, getBtop_ok exFlip exMin exMax _ _ _ ⟨[.src 0 s0, .src 1 s1], [(0, s0), (1, s1)]⟩ .sum
+    [(.user 2, k0), (.user 3, k1)] ?_ rfl ?_ ?_, ?_⟩
+  · simp [formatSrc_eq, items, checkSrcEntries, checkSrcEntry, Obj.sourcesAll]
+  · simp [formatObs, Inp.asArray, Inp.asArrays, obsLoop, obsEntry, Obj.sensorsAll]
+  · simp [BadInput, SrcFmt.entries, Obj.toEntries, Obj.toEntry?, Entry.leaves]
+  · simp [shape0, pathLen, SrcFmt.entries, Obj.toEntries, Obj.toEntry?, Entry.leaves, s0, s1, k0, k1]
+open MagpyVerif.Iface MagpyVerif.Iface.Example MagpyVerif.Level2 MagpyVerif.Level2.Example in
+example : ∃ out, collMethod exFlip exMin exMax 14 [.src 0 s0, .sens 2 k0] [] true (.agg .none) true = .ok out ∧
+    out.shape = [2] := by
+  have hb : collBranch 14 [.src 0 s0, .sens 2 k0] = .both := by
+    simp [collBranch, Obj.sourcesAll, Obj.sensorsAll]
+  rw [((method_wrappers_agree exFlip exMin exMax).2.2.1 14 _ _ true (.agg .none) true), hb]
+  dsimp only
+  rw [if_pos rfl]
+  refine ⟨_, getBtop_ok exFlip exMin exMax _ _ _ ⟨[.coll 14 [.src 0 s0, .sens 2 k0]], [(0, s0)]⟩ .none
+    [(.user 2, k0)] ?_ rfl ?_ ?_, ?_⟩
+  · simp [formatSrc_eq, items, checkSrcEntries, checkSrcEntry, Obj.sourcesAll]
+  · simp [formatObs, Inp.asArray, Inp.asArrays, obsLoop, obsEntry, Obj.sensorsAll, allSame]
+  · simp [BadInput, SrcFmt.entries, Obj.toEntries, Obj.toEntry?, Entry.leaves]
+  · simp [shape0, pathLen, SrcFmt.entries, Obj.toEntries, Obj.toEntry?, Entry.leaves, s0, k0]
+-- malformed calls and their error kinds: no sources, a sensor as source, an empty / a nested collection without sources, a
+-- nested list, a sources-only collection as observer, mixed pixel shapes (accepted only with pixel_agg), unknown pixel_agg
+-- (AttributeError, raised before the observers are looked at), inputs to a collection holding both
+open MagpyVerif.Iface MagpyVerif.Iface.Example MagpyVerif.Level2 MagpyVerif.Level2.Example in
+example :
+    errOf (getBtop exFlip exMin exMax (.list []) (.obj (.sens 2 k0)) flags) = some .badUserInput ∧
+    errOf (formatSrc (.obj (.sens 2 k0) : Inp R W)) = some .badUserInput ∧
+    errOf (formatSrc (.obj cE)) = some .badUserInput ∧
+    errOf (formatSrc (.list [.obj (.src 0 s0), .list [.obj (.src 1 s1)]])) = some .badUserInput ∧
+    errOf (formatObs (.obj cS) .none) = some .badUserInput ∧
+    errOf (formatObs (.list [.obj (.sens 2 k0), .pos [] [(⟨1, 2, 3⟩ : W)]]) .none) = some .badUserInput ∧
+    errOf (formatObs (.list [.obj (.sens 2 k0), .pos [] [(⟨1, 2, 3⟩ : W)]]) .sum) = none ∧
+    errOf (getBtop exFlip exMin exMax (.obj cS) (.list []) { flags with agg := .bad }) = some .attributeError ∧
+    errOf (collMethod exFlip exMin exMax 14 [.src 0 s0, .sens 2 k0] [.obj (.sens 3 k1)] true (.agg .none) true)
+      = some .badUserInput := by
+  refine ⟨?_, ?_, ?_, ?_, ?_, ?_, ?_, ?_, ?_⟩
+  · simp [getBtop, formatSrc_eq, items, errOf]
+  · simp [formatSrc_eq, items, checkSrcEntries, checkSrcEntry, errOf]
+  · simp [formatSrc_eq, items, checkSrcEntries, checkSrcEntry, Obj.sourcesAll, cE, errOf]
+  · simp [formatSrc_eq, items, checkSrcEntries, checkSrcEntry, errOf]
+  · simp [formatObs, Inp.asArray, Inp.asArrays, obsLoop, obsEntry, Obj.sensorsAll, cS, errOf]
+  · simp [formatObs, Inp.asArray, Inp.asArrays, obsLoop, obsEntry, sensorOfArray, freshSensor, allSame, k0, errOf]
+  · simp [formatObs, Inp.asArray, Inp.asArrays, obsLoop, obsEntry, sensorOfArray, errOf]
+  · simp [getBtop, formatSrc_eq, items, checkSrcEntries, checkSrcEntry, Obj.sourcesAll, cS, checkPixelAgg, errOf]
+  · simp [collMethod, validateInputs, collBranch, Obj.sourcesAll, Obj.sensorsAll, errOf]
+-- a list of two position arrays of equal shape is ONE numeric array for numpy (one sensor, pixel shape (2, 2)) while two
+-- of different shapes are two sensors; `check_duplicates` on [3, 1, 3, 2, 1]
+open MagpyVerif.Iface MagpyVerif.Iface.Example in
+example :
+    ((formatObs (G := R) (.list [.pos [2] [(⟨1, 0, 0⟩ : W), ⟨2, 0, 0⟩], .pos [2] [⟨3, 0, 0⟩, ⟨4, 0, 0⟩]]) .sum).toOption.map
+      fun ks => ks.map (·.2.pixShape)) = some [[2, 2]] ∧
+    ((formatObs (G := R) (.list [.pos [2] [(⟨1, 0, 0⟩ : W), ⟨2, 0, 0⟩], .pos [] [⟨3, 0, 0⟩]]) .sum).toOption.map
+      fun ks => ks.map (·.2.pixShape)) = some [[2], [1]] ∧
+    checkDuplicates [3, 1, 3, 2, 1] = ([3, 1, 2], true) ∧ checkDuplicates [3, 1, 2] = ([3, 1, 2], false) := by
+  refine ⟨?_, ?_, by decide, by decide⟩
+  · simp [formatObs, Inp.asArray, Inp.asArrays, sensorOfArray, freshSensor, Except.toOption]
+  · simp [formatObs, Inp.asArray, Inp.asArrays, obsLoop, obsEntry, sensorOfArray, freshSensor, Except.toOption]
 
 end MagpyVerif.C07
